@@ -71,7 +71,10 @@ def checkSkrAndKsr (ksr : Request) (last : Response) (pol : RequestPolicy)
 
 /-! ### publish / retire safety -/
 
-def isRevokedKey (k : Key) : Bool := hasRevokeBit k.flags.toNat
+/-- `is_revoked_key`: `bool(key.flags & 0x80)`.  Python's `&` on an `int` of either sign is the
+    two's-complement bit test, i.e. the floor residue modulo 256 is at least 128 (`Int.emod` by a
+    positive literal is that residue). -/
+def isRevokedKey (k : Key) : Bool := decide (128 ≤ k.flags % 256)
 
 def hasKeyId (b : Bundle) (id : String) : Bool := b.keys.any (fun k => k.keyIdentifier = id)
 
